@@ -21,7 +21,7 @@ Where the full statement is false of the code as it is, it is kept as a `def …
 Prop`, with the strongest `_partial` theorem (explicit side conditions) and a
 `_counterexample` from a concrete witness.  Helper lemmas live in
 CtyModel/Lemmas/{CoversBasic,CoversWeaken,OpsLogic,OpsCompare,OpsArith,OpsColl,
-OpsEquals,OpsIncludes,OpsAddSub,OpsDerived,OpsSets,OpsMul,OpsKnown,d01Ext,d01Round,d01Arith,d01Range,d01Mul,d01Side,d01Has,d01Len,d01EqObj}.lean.
+OpsEquals,OpsIncludes,OpsAddSub,OpsDerived,OpsSets,OpsMul,OpsKnown,d01Ext,d01Round,d01Arith,d01Range,d01Mul,d01Side,d01Has,d01Len,d01EqObj,d01Fuel}.lean.
 -/
 import CtyModel.Lemmas.OpsEquals
 import CtyModel.Lemmas.OpsIncludes
@@ -34,6 +34,7 @@ import CtyModel.Lemmas.d01Side
 import CtyModel.Lemmas.d01Has
 import CtyModel.Lemmas.d01Len
 import CtyModel.Lemmas.d01EqObj
+import CtyModel.Lemmas.d01Fuel
 namespace CtyModel
 namespace C01
 open Value
@@ -298,6 +299,16 @@ theorem length_set_examples :
   ⟨by rfl, by rfl, by decide, by decide, by decide⟩
 
 /-! ## Soundness: Equals -/
+
+/-- The model of `Equals` has one outcome about which `Sound₂` says nothing:
+`.unmodelled`.  It arises in two places — equality of capsule values (a callback of the
+application: a parameter, not modelled) and exhaustion of the fuel that makes the
+recursion structural.  The second NEVER happens: the fuel `Value.equals` picks (nesting
+depth + 1) suffices for every pair of types and payloads, known or not.  So an
+`.unmodelled` comparison is a comparison of capsules, and the soundness theorems are not
+true "for the wrong reason" on anything else (audit C01 item 5). -/
+theorem equals_unmodelled_only_for_capsules (a b : Value) (ha : a.v.noCaps = true) (hb : b.v.noCaps = true) :
+    Value.equals a b ≠ .unmodelled := equals_ne_unmodelled a b ha hb
 
 /-- FALSE in general: a known list / tuple / object holding `cty.DynamicVal` (so
 its type contains the placeholder) compared with an unknown is answered False
